@@ -553,6 +553,8 @@ func recoverSimple(img map[uint64][]byte, viaMakeNfs bool) (key string, errmsg s
 		}
 	}()
 	d := NewCDiskFrom(2000, img)
+	d.HoldHome(uint64(common.LOGSIZE)) // the recovered server must answer from its log
+	defer d.ReleaseHome()
 	var srv *simple.Nfs
 	if viaMakeNfs {
 		srv = simple.MakeNfs(d)
@@ -1052,8 +1054,11 @@ func recoverKvs(img map[uint64][]byte, dsz, sz uint64, keys []uint64) (state str
 		}
 	}()
 	d := NewCDiskFrom(dsz, img)
+	// the installer is held back: the recovered store must answer from its log
+	d.HoldHome(uint64(common.LOGSIZE))
 	kv := kvs.MkKVS(d, sz)
 	defer kv.Delete()
+	defer d.ReleaseHome()
 	st := kvState{}
 	for _, k := range keys {
 		p, ok := kv.Get(k)
